@@ -54,7 +54,18 @@ pub struct PassModel {
 
 /// Re-create the state reached by `history` from the source text.
 pub fn materialize(text: &str, history: &[Act]) -> Result<Option<(St, Vec<riscv_analysis::verif::PassRun>, usize)>, String> {
-    let r = imp::controlled(&[], || {
+    materialize_under(text, history, &[]).map(|o| o.map(|(s, p, n, _)| (s, p, n)))
+}
+
+/// The same under a hash-order schedule (prefix of decisions, canonical afterwards); also
+/// returns the decisions taken.
+#[allow(clippy::type_complexity)]
+pub fn materialize_under(
+    text: &str,
+    history: &[Act],
+    schedule: &[u32],
+) -> Result<Option<(St, Vec<riscv_analysis::verif::PassRun>, usize, Vec<riscv_analysis::verif::Decision>)>, String> {
+    let r = imp::controlled(schedule, || {
         let (reader, nodes, errs) = imp::parse(imp::MemReader::single(text), "base.s");
         if !errs.is_empty() {
             return Err("parse errors".to_string());
@@ -92,6 +103,7 @@ pub fn materialize(text: &str, history: &[Act]) -> Result<Option<(St, Vec<riscv_
             },
             rep.passes,
             n,
+            rep.decisions,
         ))),
         Ok((Ok(None), _)) => Ok(None),
         Ok((Err(e), _)) => Err(e),
@@ -215,6 +227,32 @@ impl C12 {
             }
             _ => {
                 acc.violation("C12|second-analysis-fails", case, json!({"source": text, "case": case}));
+                return;
+            }
+        }
+        // ... and so does an analysis under any other iteration order of the hash sets: every
+        // schedule with at most one deviation from the canonical order (capped)
+        {
+            let mut run = |prefix: &[u32]| -> Option<(St, Vec<riscv_analysis::verif::Decision>)> {
+                match materialize_under(&text, &[], prefix) {
+                    Ok(Some((s, _, _, d))) => Some((s, d)),
+                    _ => None,
+                }
+            };
+            let ex = crate::sched::explore(&mut run, 1, 24, tier.pick(48, 256));
+            acc.count("hash_order_schedules", ex.runs.len() as u64);
+            acc.count("traces", ex.runs.len() as u64);
+            if let Some(d) = &ex.replay_divergence {
+                acc.violation("C12|analysis-fails-or-diverges-under-a-hash-order", case, json!({"source": text, "case": case, "what": d}));
+                return;
+            }
+            if let Some((sch, other)) = ex.runs.iter().find(|(_, s)| *s != init) {
+                let (what, a, b) = diff_kind(&init, other);
+                acc.violation(
+                    format!("C12|facts-depend-on-hash-order|{what}"),
+                    case,
+                    json!({"source": text, "case": case, "schedule": sch, "canonical": a, "under_schedule": b}),
+                );
                 return;
             }
         }
